@@ -44,6 +44,7 @@ namespace
     std::vector<long long> keys;
     std::vector<double> ax, ax3, diag, lump, rhs, sol;
     std::vector<std::pair<std::pair<long long, long long>, double>> m1;   // type-1 matrix entries by (row key, column key)
+    std::vector<long long> base_keys; std::vector<double> joined, split_out;   // base splitter (root only: base_keys/joined)
     double dot = 0, norm2 = 0, gmax = 0, gmin = 0, gsum = 0;
     int status = -1; Index iters = 0; double def_init = 0, def_final = 0, h0 = 0, h1 = 0;
     int cmax = 0, cmin = 0;
@@ -55,7 +56,7 @@ namespace
 
   struct Counters { uint64_t sync0_dofs = 0, shared_dofs = 0, three_way = 0, matvec_entries = 0, sol_entries = 0, iters = 0, levels = 0; } CNT;
 
-  struct RunCfg { wc::WorldCfg w; int solver = 0; int cycle = 0; int wait_order = 0; };
+  struct RunCfg { wc::WorldCfg w; int solver = 0; int cycle = 0; int wait_order = 0; int splitter = 0; };
 
   // mass_op_: assemble the mass matrix / force functional instead of the Laplace problem (for spaces without gradients
   // across cells, e.g. discontinuous P0, whose gates have no neighbours at all)
@@ -114,6 +115,9 @@ namespace
         }
         domain.set_desired_levels(String(cfg.levels));
       }
+      // the base splitter needs the unpartitioned base-mesh levels on rank 0 (single-layered hierarchies only: FEAT cannot keep base levels otherwise)
+      const bool use_splitter = !reference && rc.splitter != 0 && cfg.layers == 1;
+      if(use_splitter) domain.keep_base_levels();
       std::deque<String> files; files.push_back(String(cfg.mesh_file));
       domain.create(files, String("/repo/data/meshes"));
       domain.add_trafo_mesh_part_charts();
@@ -211,6 +215,27 @@ namespace
       the_system_level.matrix_sys.lump_rows(gr, true);
       for(Index d = 0; d < nd; ++d) out.lump.push_back(gr.local()(d));
 
+      if(use_splitter)
+      {
+        // Global::Splitter: join the distributed type-1 vector into one base-mesh vector on the root and split it again
+        the_system_level.assemble_base_splitter(domain.front());
+        const auto& splitter = the_system_level.base_splitter_sys;
+        GlobalSystemVector gj = the_system_level.matrix_sys.create_vector_r();
+        for(Index d = 0; d < nd; ++d) gj.local()(d, g_val(out.keys[d], 5));
+        LocalVector base = splitter.join(gj);
+        if(splitter.is_root() && !splitter.is_single())
+        {
+          out.base_keys = dof_keys(domain.front().level_b().space);
+          if(base.size() != Index(out.base_keys.size())) sim::fail("SPLITTER", "joined base-mesh vector has a different size than the base-mesh space");
+          for(Index d = 0; d < base.size(); ++d) out.joined.push_back(base(d));
+          for(Index d = 0; d < base.size(); ++d) base(d, g_val(out.base_keys[d], 6));
+        }
+        GlobalSystemVector gs = the_system_level.matrix_sys.create_vector_r();
+        gs.format(-777.0);
+        splitter.split(gs, base);
+        if(!splitter.is_single()) for(Index d = 0; d < nd; ++d) out.split_out.push_back(gs.local()(d));
+        sim::probe("base_splitter_exercised");
+      }
       {
         // SynchMatrix: four phases of equal-tag messages between the same pairs (correct only because of non-overtaking)
         auto m1 = the_system_level.matrix_sys.convert_to_1();
@@ -389,6 +414,13 @@ namespace
           ++CNT.matvec_entries;
           if(!close(e.second, it->second, 1e-12, smax)) sim::fail("MATRIX_TYPE1", "convert_to_1(): type-1 matrix entry " + std::to_string(e.second) + " differs from the entry of the undecomposed matrix " + std::to_string(it->second));
         }
+      }
+      for(const RankOut& r : A)
+      {
+        for(size_t d = 0; d < r.joined.size(); ++d)
+          if(!close(r.joined[d], g_val(r.base_keys[d], 5), 1e-14, std::abs(g_val(r.base_keys[d], 5)) + 1)) sim::fail("SPLITTER", "Splitter::join: base-mesh vector holds " + std::to_string(r.joined[d]) + " at a DOF whose distributed value is " + std::to_string(g_val(r.base_keys[d], 5)));
+        for(size_t d = 0; d < r.split_out.size(); ++d)
+          if(r.split_out[d] != g_val(r.keys[d], 6)) sim::fail("SPLITTER", "Splitter::split: patch vector holds " + std::to_string(r.split_out[d]) + " where the base-mesh vector holds " + std::to_string(g_val(r.keys[d], 6)));
       }
       if(seen.size() != B.keys.size()) sim::fail("DOF_COVER", "the patches hold " + std::to_string(seen.size()) + " of " + std::to_string(B.keys.size()) + " global DOFs");
       CNT.iters += A[0].iters;
